@@ -217,6 +217,53 @@ Proof.
       | |- rP _ (ROk _) => leaf_acc
       end
     | wstep ].
-  all: try (unfold max_int64 in *; lia).
+  all: repeat match goal with
+              | H : dtprec_of_kw _ = Some _ |- _ =>
+                  cbn in H; first [discriminate H | inversion H; subst; clear H]
+              end.
+  all: cbn; try reflexivity; try (unfold max_int64 in *; lia).
+Qed.
+
+(* ---- what is proved of parse_ok_wf ----
+
+   FULL STATEMENT (not proved in full):
+     Theorem parse_ok_wf : forall s p, parse L s = POk p -> wf_path L p.
+
+   Proved below / above:
+   * parse_ok_validate: the second conjunct of wf_path — "@" occurs only under
+     a filter and "last" only inside a subscript (validate_chain = None);
+   * the accessor half of the first conjunct: every accessor step built by
+     p_dot / p_any / p_decimal_args from lexer-shaped tokens is an accessor
+     step satisfying step_ok (acc_post): .decimal() has 0, 1 or 2 int64
+     arguments and never a scale without a precision, .time()/.timestamp()...
+     precisions are non-negative int64, .datetime() carries only a template,
+     .date() nothing, ".**{...}" bounds are within 0..4294967295, key texts
+     are lexer texts (p_dot_rP, p_any_rP, p_decimal_args_rP, p_csv_*_rP).
+   Missing: the induction over p_unary/p_eop/p_loop/p_accs/p_index that
+   threads wf_chain and the sort tag (is_pred_chain c <-> sort = SP) through the
+   operator cases (incl. the bound 0 <= mask < 32 of regex_flags_loop), and the
+   lexer invariant [Forall tok_ok (lex L s)] (string/identifier/variable
+   texts are UTF-8 of valid non-NUL runes; INT/NUMERIC texts carry no sign).
+   The differential test checks the executable [wf_chain] on every accepted
+   input instead (tools/parsevec). *)
+
+Theorem parse_ok_validate s p :
+  parse L s = POk p -> validate_chain (p_root p) 0 false = None.
+Proof.
+  unfold parse, parse_tokens.
+  set (q := match lex L s with
+            | mktok (TKw KStrict) _ :: r => (false, r)
+            | mktok (TKw KLax) _ :: r => (true, r)
+            | _ => (true, lex L s)
+            end).
+  destruct q as [lax ts1].
+  destruct (p_eop L (parser_fuel ts1) 0 true ts1) as [[[so c] r]|e]; [|discriminate].
+  destruct r as [|[k txt] r'].
+  - destruct (validate_chain c 0 false) eqn:V; [discriminate|].
+    intros H. inversion H; subst. exact V.
+  - destruct k; try (destruct (validate_chain c 0 false); discriminate).
 Qed.
 End L.
+
+Print Assumptions parse_ok_validate.
+Print Assumptions p_dot_rP.
